@@ -947,8 +947,11 @@ pub mod vh1 {
                 let mut source = req.finalize();
                 let pump = tokio::spawn(async move {
                     // keep the session going: the codec forwards the upload while `listen` runs
+                    // as in `Tunnel::listen`: when the session ends the codec is dropped, which is
+                    // what ends the upload side
                     let r = codec.listen().await;
-                    (codec, r.is_ok())
+                    drop(codec);
+                    r.is_ok()
                 });
                 let mut sink: Option<Box<dyn pipe::Sink>> = None;
                 if respond {
